@@ -22,8 +22,9 @@ CONSTANTS CHECK_VALUES,     \* C05: raw values against the formulas
           CHECK_RANGES      \* C12: documented ranges / orderings of the logged values
 
 Rec == ndJsonDeserialize(IOEnv.TRACE)
-VARIABLES l, name, cfg, st, sg, t, P, V, K, live, mute
-vars == <<l, name, cfg, st, sg, t, P, V, K, live, mute>>
+VARIABLES l, name, cfg, st, sg, t, P, V, K, live, mute,
+          dry        \* number of consecutive zero-volume bars up to now (the construction candle is an infinite prehistory)
+vars == <<l, name, cfg, st, sg, t, P, V, K, live, mute, dry>>
 E == Rec[l]
 IsNum(j) == "s" \in DOMAIN j
 Fx(j) == FxFromJson(j)
@@ -57,7 +58,7 @@ Accept(y, e, tt) ==
                                  ELSE IF FxLt(e.den, FxNeg(ad)) THEN IsNum(y) /\ FxEq(Fx(y), e.zero)
                                  ELSE TRUE
 
-Init == l = 1 /\ name = "" /\ cfg = <<>> /\ st = <<>> /\ sg = <<>> /\ t = 0 /\ P = FxZero /\ V = FxZero /\ K = 1 /\ live = FALSE /\ mute = FALSE
+Init == l = 1 /\ name = "" /\ cfg = <<>> /\ st = <<>> /\ sg = <<>> /\ t = 0 /\ P = FxZero /\ V = FxZero /\ K = 1 /\ live = FALSE /\ mute = FALSE /\ dry = 0
 
 TNew == /\ E.ev = "ind_new"
         /\ E.valid = TRUE /\ E.res \in {"ok", "err"}    \* generated configurations are valid; whether every valid one initialises is C10's claim
@@ -67,6 +68,7 @@ TNew == /\ E.ev = "ind_new"
                /\ sg' = IF CHECK_SIGNALS /\ E.name \in SpecifiedSignals THEN ISigInit(E.name, cf, c) ELSE <<>>
                /\ P' = CMag(c) /\ V' = FxAbs(c.v)
         /\ t' = 0 /\ K' = E.k /\ live' = (E.res = "ok") /\ mute' = FALSE
+        /\ dry' = IF Cn(E.c).v.s > 0 THEN 0 ELSE 100000
 
 TNext == /\ E.ev = "ind_next" /\ live
          /\ "panic" \notin DOMAIN E
@@ -90,7 +92,8 @@ TNext == /\ E.ev = "ind_next" /\ live
                            /\ sg' = a.sg
                            /\ \A i \in 1..Len(E.s) : E.s[i] \in a.sigs[i]
                    ELSE sg' = sg
-                /\ CHECK_RANGES => RangeOK(name, cfg, c, E.v, E.raw_ma_kinds)
+                /\ dry' = IF c.v.s > 0 THEN 0 ELSE IF dry >= 100000 THEN dry ELSE dry + 1
+                /\ CHECK_RANGES => RangeOK(name, cfg, c, E.v, E.raw_ma_kinds, dry')
          /\ t' = t + 1 /\ UNCHANGED <<name, cfg, K, live>>
 
 Next == l <= Len(Rec) /\ (TNew \/ TNext) /\ l' = l + 1
